@@ -10,6 +10,7 @@ import (
 	"time"
 
 	pb "github.com/jamf/regatta/regattapb"
+	"github.com/jamf/regatta/storage/table"
 	"github.com/lni/dragonboat/v4"
 
 	"verifharness/internal/cluster"
@@ -170,7 +171,7 @@ func (m *liveMon) feed(o liveObs) {
 const metaShard = 1000
 
 // convergenceBound is the watchdog of one settle phase (convergence normally takes a few ms).
-const convergenceBound = 8 * time.Second
+const convergenceBound = 5 * time.Second
 
 // healWait (C19_HEAL_WAIT, diagnostic only): how long to keep watching a view that did not
 // converge within the bound.
@@ -182,18 +183,26 @@ func runLive(r *ev.Run, seed int64, episodes, transfers int) {
 	if raceOn {
 		o.RTT, o.ElectionRTT = 10, 20
 	}
-	c, err := cluster.Start(o)
-	if err != nil {
-		r.Inconclusive("live: cluster start: " + err.Error())
-		return
+	// start-up trouble (ports, slow first election) is retried; it is never a verdict
+	var c *cluster.Cluster
+	var shard uint64
+	for attempt := 0; ; attempt++ {
+		var err error
+		c, err = cluster.Start(o)
+		if err == nil {
+			var t table.Table
+			if t, err = c.CreateTable("t"); err == nil {
+				shard = t.ClusterID
+				break
+			}
+			c.Close()
+		}
+		if attempt == 2 {
+			r.Inconclusive("live: cluster start / create table: " + err.Error())
+			return
+		}
 	}
 	defer c.Close()
-	t, err := c.CreateTable("t")
-	if err != nil {
-		r.Inconclusive("live: create table: " + err.Error())
-		return
-	}
-	shard := t.ClusterID
 	m := &liveMon{r: r, seed: seed, k: transfers, eps: episodes, j: newLiveJudge(), reported: map[string]bool{}}
 
 	var stop atomic.Bool
@@ -344,7 +353,7 @@ func runLive(r *ev.Run, seed int64, episodes, transfers int) {
 				s = metaShard
 			}
 			var leader uint64
-			for dl := time.Now().Add(10 * time.Second); time.Now().Before(dl); time.Sleep(5 * time.Millisecond) {
+			for dl := time.Now().Add(5 * time.Second); time.Now().Before(dl); time.Sleep(5 * time.Millisecond) {
 				if l, _, ok := raft(s); ok {
 					leader = l
 					break
@@ -368,7 +377,7 @@ func runLive(r *ev.Run, seed int64, episodes, transfers int) {
 				continue // do not wait: the next transfer hits a shard in transition
 			}
 			reached := false
-			for dl := time.Now().Add(5 * time.Second); time.Now().Before(dl); time.Sleep(2 * time.Millisecond) {
+			for dl := time.Now().Add(time.Second); time.Now().Before(dl); time.Sleep(2 * time.Millisecond) {
 				if l, _, ok := raft(s); ok && l == target {
 					reached = true
 					break
